@@ -521,6 +521,10 @@ def _apply_mutation(fs, op, markers):
 # --------------------------------------------------------------------------
 # executor
 
+DOC_TEMPLATES = ['@M{@N}', '@M{@N}', '@M {@N}', 'x \\textbf{@M{@N}} y', '@M{@N} and again @M{@N}', '% c\n@M{@N}',
+                 '\\begin{itemize}\\item @M{@N}\\end{itemize}', '$a$ @M{@N}\n\n@M{a}', '{\\small @M{@N}}']
+
+
 class Violation(Exception):
     def __init__(self, invariant, **info):
         Exception.__init__(self, invariant)
@@ -714,7 +718,9 @@ def execute(program):
                     if via == 'rif':
                         text = l2t.read_input_file(name)
                     else:
-                        text = l2t.latex_to_text('\\%s{%s}' % (via, name))
+                        # the document side: the macro in different surroundings (chosen by the name)
+                        tpl = DOC_TEMPLATES[sum(ord(ch) for ch in name) % len(DOC_TEMPLATES)]
+                        text = l2t.latex_to_text(tpl.replace('@M', '\\' + via).replace('@N', name))
             except simfs.SimUnsupported as e:
                 raise core.HarnessError("unsupported simulated system call: %s" % e)
             except Exception as e:
